@@ -308,4 +308,107 @@ theorem shapeOf_sound (t : Term) (hs : AnnotSound I ρ t) (sh : List Dim)
     (hn : shapeOf t = some sh) (x : Tensor α) (hx : eval I ρ t = [x]) : shapeOK I sh x :=
   (shapeOf_sound_aux I ρ t).1 hs sh hn x hx
 
+/-! ### element-count rule for Reshape, annotation-free normalisation -/
+
+theorem prodTo_congr_pos (d d' : Nat → Nat) : ∀ n, (∀ j, j < n → d j = d' j ∧ 0 < d j) →
+    prodTo d n = prodTo d' n ∧ 0 < prodTo d n := by
+  intro n
+  induction n with
+  | zero => intro _; simp [prodTo]
+  | succ n ih =>
+    intro h
+    obtain ⟨e, p⟩ := ih (fun j hj => h j (by omega))
+    obtain ⟨e2, p2⟩ := h n (by omega)
+    refine ⟨by simp [prodTo, e, e2], ?_⟩
+    simp only [prodTo]; exact Nat.mul_pos p p2
+
+theorem prodTo_cancel (d d' : Nat → Nat) (k : Nat) : ∀ n, k < n →
+    (∀ j, j < n → j ≠ k → d j = d' j ∧ 0 < d j) → prodTo d n = prodTo d' n → d k = d' k := by
+  intro n
+  induction n with
+  | zero => intro h; omega
+  | succ n ih =>
+    intro hk h he
+    simp only [prodTo] at he
+    by_cases hkn : k = n
+    · subst hkn
+      obtain ⟨e, p⟩ := prodTo_congr_pos d d' k (fun j hj => h j (by omega) (by omega))
+      rw [← e] at he
+      exact Nat.eq_of_mul_eq_mul_left p he
+    · obtain ⟨e2, p2⟩ := h n (by omega) (by omega)
+      rw [← e2] at he
+      have := Nat.eq_of_mul_eq_mul_right p2 he
+      exact ih (by omega) (fun j hj hne => h j (by omega) hne) this
+
+theorem posEq_spec {a b : Dim} (h : a.posEq b = true) : ∃ m, 0 < m ∧ a = .known m ∧ b = .known m := by
+  cases a <;> cases b <;> simp [Dim.posEq] at h
+  rename_i m n
+  exact ⟨m, h.2, rfl, by rw [h.1]⟩
+
+theorem allPos_spec : ∀ (as bs : List Dim), allPos as bs = true →
+    as.length = bs.length ∧ ∀ j (h1 : j < as.length) (h2 : j < bs.length),
+      ∃ m, 0 < m ∧ as[j] = .known m ∧ bs[j] = .known m := by
+  intro as
+  induction as with
+  | nil => intro bs h; cases bs <;> simp [allPos] at h; simp
+  | cons a as ih =>
+    intro bs h
+    cases bs with
+    | nil => simp [allPos] at h
+    | cons b bs =>
+      simp only [allPos, Bool.and_eq_true] at h
+      obtain ⟨l, r⟩ := ih bs h.2
+      refine ⟨by simp [l], ?_⟩
+      intro j h1 h2
+      cases j with
+      | zero => simpa using posEq_spec h.1
+      | succ j => simpa using r j (by simpa using h1) (by simpa using h2)
+
+theorem oneOff_spec : ∀ (as bs : List Dim), oneOff as bs = true →
+    as.length = bs.length ∧ ∃ k, k < as.length ∧ ∀ j (h1 : j < as.length) (h2 : j < bs.length), j ≠ k →
+      ∃ m, 0 < m ∧ as[j] = .known m ∧ bs[j] = .known m := by
+  intro as
+  induction as with
+  | nil => intro bs h; simp [oneOff] at h
+  | cons a as ih =>
+    intro bs h
+    cases bs with
+    | nil => simp [oneOff] at h
+    | cons b bs =>
+      simp only [oneOff, Bool.or_eq_true, Bool.and_eq_true] at h
+      rcases h with ⟨hp, ho⟩ | ha
+      · obtain ⟨l, k, hk, r⟩ := ih bs ho
+        refine ⟨by simp [l], k + 1, by simpa using hk, ?_⟩
+        intro j h1 h2 hne
+        cases j with
+        | zero => simpa using posEq_spec hp
+        | succ j => simpa using r j (by simpa using h1) (by simpa using h2) (by omega)
+      · obtain ⟨l, r⟩ := allPos_spec as bs ha
+        refine ⟨by simp [l], 0, by simp, ?_⟩
+        intro j h1 h2 hne
+        cases j with
+        | zero => omega
+        | succ j => simpa using r j (by simpa using h1) (by simpa using h2)
+
+theorem eval_stripApp : ∀ t : Term, eval I ρ (stripApp t) = eval I ρ t := by
+  intro t
+  induction t with
+  | leaf id ann s => rfl
+  | boolc b => rfl
+  | nil => rfl
+  | cons t ts iht ihts => simp [stripApp, eval, iht, ihts]
+  | app h ann args ih => simp [stripApp, eval, ih]
+
+theorem annotSound_stripApp : ∀ t : Term, AnnotSound I ρ t → AnnotSound I ρ (stripApp t) := by
+  intro t
+  induction t with
+  | leaf id ann s => intro h; exact h
+  | boolc b => intro h; exact h
+  | nil => intro h; exact h
+  | cons t ts iht ihts => intro h; exact ⟨iht h.1, ihts h.2⟩
+  | app h ann args ih =>
+    intro hs
+    refine ⟨ih hs.1, ?_⟩
+    simp [annOK, Ann.none]
+
 end J2O.C02
